@@ -21,8 +21,14 @@ type ChildParams struct {
 
 // NewChild create new instance of child scope
 func NewChild(parent app.Scope, params ChildParams) app.Scope {
-	var sid string
-	parent.AddTasks(1)
+	var (
+		sid string
+		// the child signs off (DoneTask) on close only if it was registered
+		registeredParent = parent
+	)
+	if err := parent.AddTasks(1); err != nil {
+		registeredParent = nil
+	}
 	if params.ContextScope == nil {
 		params.ContextScope = parent.BaseContextScope()
 	}
@@ -44,7 +50,7 @@ func NewChild(parent app.Scope, params ChildParams) app.Scope {
 		params.CID = parent.CID()
 	}
 	return &Scope{
-		parent:       parent,
+		parent:       registeredParent,
 		sid:          sid,
 		cid:          params.CID,
 		ContextScope: params.ContextScope,
